@@ -301,7 +301,7 @@ def shards(tier, seed):
     n_h = 8 if tier == 'quick' else 16
     for k in range(n_h):
         out.append(dict(kind='hyp', seed=seed * 1000 + k,
-                        n=250 if tier == 'quick' else 30000))
+                        n=250 if tier == 'quick' else 12000))
     out.append(dict(kind='scalar-error'))
     for k in range(4):
         out.append(dict(kind='func-grid', part=k, parts=4))
